@@ -452,7 +452,11 @@ func (c *Ctx) lockFunc(pk *packages.Package, spec LockSpec, tpath string, guarde
 func freshLocals(info *types.Info, body *ast.BlockStmt, ft *ast.FuncType, tpath, tname string) map[types.Object]bool {
 	cand := map[types.Object]bool{}
 	bad := map[types.Object]bool{}
+	ptrInto := map[types.Object][]ast.Expr{} // every value assigned (by `=`/`:=`) to a struct(-pointer) local; nil = not a plain expression
 	isFresh := func(e ast.Expr) bool {
+		if e == nil {
+			return false
+		}
 		e = unparen(e)
 		if u, ok := e.(*ast.UnaryExpr); ok && u.Op == token.AND {
 			e = unparen(u.X)
@@ -492,6 +496,11 @@ func freshLocals(info *types.Info, body *ast.BlockStmt, ft *ast.FuncType, tpath,
 				} else {
 					bad[o] = true
 				}
+				if len(s.Rhs) == len(s.Lhs) {
+					ptrInto[o] = append(ptrInto[o], s.Rhs[i])
+				} else {
+					ptrInto[o] = append(ptrInto[o], nil)
+				}
 			}
 		case *ast.ValueSpec:
 			for i, id := range s.Names {
@@ -528,6 +537,27 @@ func freshLocals(info *types.Info, body *ast.BlockStmt, ft *ast.FuncType, tpath,
 	for o := range cand {
 		if !bad[o] && !params[o] {
 			out[o] = true
+		}
+	}
+	// a pointer into a fresh allocation (`q = &fresh.field`, every assignment of q of that form or itself
+	// fresh) is memory this function still owns
+	for changed := true; changed; {
+		changed = false
+		for o, rs := range ptrInto {
+			if out[o] || params[o] {
+				continue
+			}
+			all := len(rs) > 0
+			for _, r := range rs {
+				u, ok := unparen(r).(*ast.UnaryExpr)
+				if !(isFresh(r) || (ok && u.Op == token.AND && freshPath(info, out, u.X))) {
+					all = false
+				}
+			}
+			if all {
+				out[o] = true
+				changed = true
+			}
 		}
 	}
 	return out
